@@ -25,6 +25,8 @@ fn describe(line: &[u8], decode: bool, exp: &Expect, out: &Out, why: &str) -> J 
 
 thread_local! {
     static FINDINGS: std::cell::RefCell<Findings> = const { std::cell::RefCell::new(Vec::new()) };
+    static TRACE_CACHE: std::cell::RefCell<std::collections::HashMap<(String, String), Option<String>>> =
+        std::cell::RefCell::new(std::collections::HashMap::new());
 }
 
 /// Feed one line to a fresh parser and judge it for `prop`.
@@ -51,6 +53,19 @@ pub fn judge_line(l: &mut Local, line: &[u8], decode: bool, prop: &'static str) 
         let mut f = f.borrow_mut();
         f.clear();
         judge_step(&exp, line, decode, &out, &d0, &d1, &mut f);
+        // representation-only differences are not traces: compare behaviour (cached per state pair —
+        // the parser is fresh, so the pair identifies the two states)
+        crate::explore::confirm_traces(&mut f, || {
+            TRACE_CACHE.with(|c| {
+                let key = (d0.clone(), d1.clone());
+                if let Some(v) = c.borrow().get(&key) {
+                    return v.clone();
+                }
+                let v = crate::explore::states_differ(&[], &[(line.to_vec(), decode)], &crate::explore::probe_set(&MState::Closed));
+                c.borrow_mut().insert(key, v.clone());
+                v
+            })
+        });
         for (props, sig, why) in f.drain(..) {
             if props.contains(&prop) {
                 let sig = sig.replace("asm.", "line.");
